@@ -131,12 +131,11 @@ theorem C04_roundtrip_core (c : Trace.Code) (O : Trace.Options) (ext : Ext) (n :
     intro x hx
     obtain ⟨v, hv, rfl⟩ := List.mem_map.mp hx
     exact ser_ok t v (hwt v hv)
-  have hraw : ∀ x ∈ vs.map (ser t), Build.rawOK x = true := fun x hx => Build.noRaw_rawOK x (hser x hx).1
   obtain ⟨hlen, cols, hc1, hc2, hc3, hc4⟩ := Props.C01.C01_build_decode ext fields (vs.map (ser t)) arrs
     (fun f hf => (hside f hf).1) (fun f hf => (hside f hf).2.1)
     (List.all_eq_true.mpr fun f hf => (hside f hf).2.2) hsafe (fun x hx => (hser x hx).1) htm
   obtain ⟨_, hwf⟩ := Props.C03.C03_wf ext fields (vs.map (ser t)) arrs
-    (fun f hf => (hside f hf).1) (fun f hf => (hside f hf).2.1) hsafe hext hraw (fun x hx => (hser x hx).2) htm
+    (fun f hf => (hside f hf).1) (fun f hf => (hside f hf).2.1) hsafe hext (fun x hx => (hser x hx).2) htm
   have hrl : (vs.map (ser t)).length = vs.length := List.length_map _
   -- the root reader
   have hcols : Spec.wfFields (mappingFields o fs) (zipCols fields arrs) vs.length = true := by
